@@ -236,6 +236,46 @@ func runC04(r *Report) {
 				})
 			}
 		}
+		if !(okB && okReset) {
+			// the test-and-reset may be a shared unexported mux method that is handed the wire
+			for _, cs := range Sites(fn, func(in ssa.Instruction) bool { _, ok := in.(*ssa.Call); return ok }) {
+				call := cs.Instr.(*ssa.Call)
+				h := call.Call.StaticCallee()
+				if h == nil || h.Blocks == nil || isExportedName(h.Name()) || !strings.HasPrefix(FuncName(h), "rueidis.(*mux).") {
+					continue
+				}
+				var wp ssa.Value
+				for k, a := range call.Call.Args {
+					if Strip(a) == w && k < len(h.Params) {
+						wp = h.Params[k]
+					}
+				}
+				if wp == nil {
+					continue
+				}
+				hb, hr := false, false
+				for _, b := range CallSites(h, "rueidis.isBroken") {
+					if Strip(b.Call().Common().Args[1]) == wp {
+						hb = true
+					}
+				}
+				for _, s := range Sites(h, func(in ssa.Instruction) bool {
+					c, ok := in.(*ssa.Call)
+					return ok && strings.Contains(CalleeName(c), ").CompareAndSwap") && strings.Contains(DescDeep(c), ".wire")
+				}) {
+					args := s.Call().Common().Args
+					if Strip(args[1]) == wp && strings.HasSuffix(DescDeep(args[2]), ".init") {
+						hr = Guarded(s.Block, func(g Guard) bool {
+							c, ok := g.Cond.(*ssa.Call)
+							return ok && g.Pol && CalleeName(c) == "rueidis.isBroken"
+						})
+					}
+				}
+				if hb && hr {
+					okB, okReset = true, true
+				}
+			}
+		}
 		r.Ob("R04d", fn, "broken-wire-resets-slot", fn.Pos(), okB && okReset, "mux."+n+" must test isBroken(result, wire) and put the initial wire back into the slot so that later calls dial afresh")
 	}
 	for _, n := range []string{"blocking", "blockingMulti"} {
@@ -373,10 +413,12 @@ func runC04(r *Report) {
 	// R04f watchdog
 	if fn := r.FnAnchor("R04f", P+"backgroundPing$1"); fn != nil {
 		dl := false
-		for _, b := range fn.Blocks {
-			for _, in := range b.Instrs {
-				if u, ok := in.(*ssa.UnOp); ok && u.Op == token.MUL && strings.HasSuffix(Desc(u), "os.ErrDeadlineExceeded") {
-					dl = true
+		for _, f := range WithHelpers(r.P, fn) { // the ping-with-timeout block may be a method of its own
+			for _, b := range f.Blocks {
+				for _, in := range b.Instrs {
+					if u, ok := in.(*ssa.UnOp); ok && u.Op == token.MUL && strings.HasSuffix(Desc(u), "os.ErrDeadlineExceeded") {
+						dl = true
+					}
 				}
 			}
 		}
@@ -511,9 +553,25 @@ func stateTransitionRule(r *Report, rule string) {
 	// Close's fence depends on its own CAS results
 	if fn := r.FnAnchor(rule, P+"Close"); fn != nil {
 		fenced := false
-		for _, s := range Sites(fn, func(in ssa.Instruction) bool {
+		isPut := func(in ssa.Instruction) bool {
 			c, ok := in.(ssa.CallInstruction)
 			return ok && CalleeName(c) == "iface:rueidis.queue.PutOne"
+		}
+		for _, s := range Sites(fn, func(in ssa.Instruction) bool {
+			if isPut(in) {
+				return true
+			}
+			// or an unexported pipe method only Close calls, every path of which queues the PING
+			c, ok := in.(*ssa.Call)
+			if !ok {
+				return false
+			}
+			h := c.Call.StaticCallee()
+			if h == nil || h.Blocks == nil || isExportedName(h.Name()) || !strings.HasPrefix(FuncName(h), P) || !helperOnlyCalledFrom(r.P, h, map[string]bool{P + "Close": true}, 1) {
+				return false
+			}
+			mp, _ := MustPassFromEntry(h, isPut)
+			return mp
 		}) {
 			fenced = Guarded(s.Block, func(g Guard) bool {
 				return g.Pol && DependsOn(g.Cond, func(v ssa.Value) bool {
